@@ -11,18 +11,19 @@ import (
 
 // Replay is everything needed to re-run one case without any explorer.
 type Replay struct {
-	Property string   `json:"property"`
-	Sig      string   `json:"signature"`
-	What     string   `json:"what"`
-	Mode     string   `json:"mode"` // file | repl | lex | parse | args
-	Program  string   `json:"program"`
-	Stdin    string   `json:"stdin,omitempty"`
-	Args     []string `json:"args,omitempty"`
-	Choices  []int    `json:"choices,omitempty"`
-	StdinSch bool     `json:"stdin_schedule,omitempty"`
-	Expected string   `json:"expected"`
-	Observed string   `json:"observed"`
-	Related  []string `json:"related_programs,omitempty"`
+	Property  string   `json:"property"`
+	Sig       string   `json:"signature"`
+	What      string   `json:"what"`
+	Mode      string   `json:"mode"` // file | repl | lex | parse | args
+	Program   string   `json:"program"`
+	Stdin     string   `json:"stdin,omitempty"`
+	Args      []string `json:"args,omitempty"`
+	Choices   []int    `json:"choices,omitempty"`
+	StdinSch  bool     `json:"stdin_schedule,omitempty"`
+	StdinMode int      `json:"stdin_default_answer,omitempty"` // with stdin_schedule: the answer a read gets beyond Choices (0 line, 1 all, 2 byte)
+	Expected  string   `json:"expected"`
+	Observed  string   `json:"observed"`
+	Related   []string `json:"related_programs,omitempty"`
 	// CLI: the violation is visible from stdout/stderr/status of the plain
 	// executable alone (no controlled choice, no internal observation).
 	CLI bool `json:"cli_reproducible"`
